@@ -125,6 +125,15 @@ def run_query_case(case):
                         rec["out"] = exc_name(e)
                     else:
                         raise
+            elif op == "rule":
+                rec["insts"] = []
+                names = ["a", "b"] + (["c"] if len(b.q["vars"]) > 1 else [])
+                for inst in b.query.evaluate():
+                    rec["insts"].append({"cls": type(inst).__name__,
+                                         "f": [world.encode(getattr(inst, n, None), index_of) for n in names],
+                                         "fresh": id(inst) not in before})
+                    before.add(id(inst))
+                    heap.append(inst)
             elif op == "infer":
                 rec["insts"] = []
                 head = b.q["head"]
